@@ -8,7 +8,7 @@ Definition spec_1in02 : pspec :=
   mkPS P1in02
     (mkCP Uc 80 128 10 false 0 0 [(16, P1); (19, P2)] [18] true true [2; 4; 18] true 2 5
       [0; 1; 2; 3; 4; 6; 7; 16; 17; 18; 19; 32; 33; 34; 35; 36; 37; 42; 48; 64; 65; 80; 81; 96; 97; 101; 112; 113; 114; 128; 129; 130; 144; 145; 146; 160; 161; 162; 165; 224; 227; 229]
-      [(97, [2]); (144, [5]); (7, [1])] None)
+      [(97, [2]); (144, [5]); (7, [1])] None false)
     1280 [(16, 10); (19, 10)] [0; 1]
     [mkEntry (OUpdateFrame 1280) [mkTarget 0 19 BId 0 1280] 0;
      mkEntry (OUpdateAndDisplay 1280) [mkTarget 0 19 BId 0 1280] 1;
@@ -26,27 +26,17 @@ Definition spec_1in02 : pspec :=
      [OWaitIdle];
      [OSleep; OWakeUp];
      [OWakeUp];
-     [OUpdatePartial 16 8 4 64 2];
-     [OUpdatePartial 1 0 0 8 1];
-     [OUpdatePartial 1 72 127 8 1];
-     [OUpdatePartial 3 16 125 8 3];
      [OUpdateOld 1280; OUpdateNew 1280];
-     [ODisplayNew];
-     [OUpdateAndDisplayNew 1280];
      [OUpdatePartialOld 16 8 4 64 2; OUpdatePartialNew 16 8 4 64 2];
      [OClearPartial 8 4 64 2];
-     [OUpdatePartialOld 1 0 0 8 1; OUpdatePartialNew 1 0 0 8 1];
-     [OClearPartial 0 0 8 1];
      [OUpdatePartialOld 1 72 127 8 1; OUpdatePartialNew 1 72 127 8 1];
-     [OClearPartial 72 127 8 1];
-     [OUpdatePartialOld 3 16 125 8 3; OUpdatePartialNew 3 16 125 8 3];
-     [OClearPartial 16 125 8 3]].
+     [OClearPartial 72 127 8 1]].
 
 Definition spec_1in54 : pspec :=
   mkPS P1in54
     (mkCP Ssd 200 200 25 false 29 319 [(36, P1); (38, P2)] [32] false false [18; 32; 70; 71] false 4 9
       [1; 3; 4; 12; 15; 16; 17; 18; 24; 26; 27; 32; 33; 34; 36; 38; 44; 50; 55; 58; 59; 60; 63; 68; 69; 70; 71; 78; 79; 127; 255]
-      [(1, [3]); (16, [1]); (17, [1]); (33, [1; 2]); (34, [1]); (68, [2]); (69, [4]); (78, [1]); (79, [2])] None)
+      [(1, [3]); (16, [1]); (17, [1]); (33, [1; 2]); (34, [1]); (68, [2]); (69, [4]); (78, [1]); (79, [2])] None false)
     5000 [(36, 25); (38, 25)] [0; 1]
     [mkEntry (OUpdateFrame 5000) [mkTarget 0 36 BId 0 5000] 0;
      mkEntry (OUpdateAndDisplay 5000) [mkTarget 0 36 BId 0 5000] 1]
@@ -71,7 +61,7 @@ Definition spec_1in54_v2 : pspec :=
   mkPS P1in54_v2
     (mkCP Ssd 200 200 25 false 24 199 [(36, P1); (38, P2)] [32] false false [18; 32; 70; 71] false 4 9
       [1; 3; 4; 12; 15; 16; 17; 18; 24; 26; 27; 32; 33; 34; 36; 38; 44; 50; 55; 58; 59; 60; 63; 68; 69; 70; 71; 78; 79; 127; 255]
-      [(1, [3]); (16, [1]); (17, [1]); (33, [1; 2]); (34, [1]); (68, [2]); (69, [4]); (78, [1]); (79, [2])] None)
+      [(1, [3]); (16, [1]); (17, [1]); (33, [1; 2]); (34, [1]); (68, [2]); (69, [4]); (78, [1]); (79, [2])] None false)
     5000 [(36, 25); (38, 25)] [0; 1]
     [mkEntry (OUpdateFrame 5000) [mkTarget 0 36 BId 0 5000] 0;
      mkEntry (OUpdateAndDisplay 5000) [mkTarget 0 36 BId 0 5000] 1]
@@ -96,7 +86,7 @@ Definition spec_1in54b : pspec :=
   mkPS P1in54b
     (mkCP Uc 200 200 25 false 0 0 [(16, P1); (19, P2)] [18] true true [2; 4; 18] true 3 9
       [0; 1; 2; 3; 4; 6; 7; 16; 17; 18; 19; 32; 33; 34; 35; 36; 37; 38; 39; 48; 64; 65; 80; 96; 97; 101; 113; 130; 144; 145; 146; 224; 227; 229]
-      [(97, [3]); (144, [9]); (7, [1])] None)
+      [(97, [3]); (144, [9]); (7, [1])] None false)
     5000 [(16, 50); (19, 25)] [0; 1]
     [mkEntry (OUpdateFrame 5000) [mkTarget 0 16 BExp2 0 5000] 0;
      mkEntry (OUpdateAndDisplay 5000) [mkTarget 0 16 BExp2 0 5000] 1;
@@ -115,10 +105,6 @@ Definition spec_1in54b : pspec :=
      [OWaitIdle];
      [OSleep; OWakeUp];
      [OWakeUp];
-     [OUpdatePartial 16 8 4 64 2];
-     [OUpdatePartial 1 0 0 8 1];
-     [OUpdatePartial 1 192 199 8 1];
-     [OUpdatePartial 3 16 197 8 3];
      [OUpdateColor 5000 5000];
      [OUpdateAchromatic 5000; OUpdateChromatic 5000]].
 
@@ -126,7 +112,7 @@ Definition spec_1in54c : pspec :=
   mkPS P1in54c
     (mkCP Uc 152 152 19 false 0 0 [(16, P1); (19, P2)] [18] true true [2; 4; 18] true 3 9
       [0; 1; 2; 3; 4; 6; 7; 16; 17; 18; 19; 32; 33; 34; 35; 36; 37; 48; 64; 65; 80; 96; 97; 101; 113; 130; 144; 145; 146; 224; 227; 229]
-      [(97, [3]); (144, [9]); (7, [1])] None)
+      [(97, [3]); (144, [9]); (7, [1])] None false)
     2888 [(16, 19); (19, 19)] [0; 1]
     [mkEntry (OUpdateFrame 2888) [mkTarget 0 16 BId 0 2888] 0;
      mkEntry (OUpdateAndDisplay 2888) [mkTarget 0 16 BId 0 2888] 1;
@@ -145,10 +131,6 @@ Definition spec_1in54c : pspec :=
      [OWaitIdle];
      [OSleep; OWakeUp];
      [OWakeUp];
-     [OUpdatePartial 16 8 4 64 2];
-     [OUpdatePartial 1 0 0 8 1];
-     [OUpdatePartial 1 144 151 8 1];
-     [OUpdatePartial 3 16 149 8 3];
      [OUpdateColor 2888 2888];
      [OUpdateAchromatic 2888; OUpdateChromatic 2888]].
 
@@ -156,7 +138,7 @@ Definition spec_2in13_v2 : pspec :=
   mkPS P2in13_v2
     (mkCP Ssd 122 250 16 false 19 295 [(36, P1); (38, P2)] [32] false false [18; 32; 70; 71] false 4 9
       [0; 1; 3; 4; 12; 15; 16; 17; 18; 20; 21; 24; 26; 27; 28; 32; 33; 34; 36; 38; 39; 40; 41; 42; 44; 45; 47; 48; 49; 50; 54; 55; 58; 59; 60; 63; 65; 68; 69; 70; 71; 78; 79; 116; 126; 127; 255]
-      [(1, [3]); (16, [1]); (17, [1]); (33, [1; 2]); (34, [1]); (68, [2]); (69, [4]); (78, [1]); (79, [2])] None)
+      [(1, [3]); (16, [1]); (17, [1]); (33, [1; 2]); (34, [1]); (68, [2]); (69, [4]); (78, [1]); (79, [2])] None false)
     4000 [(36, 16); (38, 16)] [0; 1]
     [mkEntry (OUpdateFrame 4000) [mkTarget 0 36 BId 0 4000] 0;
      mkEntry (OUpdateAndDisplay 4000) [mkTarget 0 36 BId 0 4000] 1;
@@ -185,7 +167,7 @@ Definition spec_2in13b_v4 : pspec :=
   mkPS P2in13b_v4
     (mkCP Ssd 122 250 16 false 21 295 [(36, P1); (38, P2)] [32] false false [18; 32; 70; 71] false 4 9
       [0; 1; 3; 4; 12; 15; 16; 17; 18; 24; 26; 27; 32; 33; 34; 36; 38; 44; 47; 50; 55; 58; 59; 60; 63; 68; 69; 70; 71; 78; 79; 127; 255]
-      [(1, [3]); (16, [1]); (17, [1]); (33, [1; 2]); (34, [1]); (68, [2]); (69, [4]); (78, [1]); (79, [2])] None)
+      [(1, [3]); (16, [1]); (17, [1]); (33, [1; 2]); (34, [1]); (68, [2]); (69, [4]); (78, [1]); (79, [2])] None false)
     4000 [(36, 16); (38, 16)] [0; 1; 2]
     [mkEntry (OUpdateFrame 4000) [mkTarget 0 36 BId 0 4000] 0;
      mkEntry (OUpdateAndDisplay 4000) [mkTarget 0 36 BId 0 4000] 1;
@@ -195,9 +177,6 @@ Definition spec_2in13b_v4 : pspec :=
     [[OSetBg 0];
      [OSetBg 1];
      [OSetBg 2];
-     [OSetLut None];
-     [OSetLut (Some 0)];
-     [OSetLut (Some 1)];
      [OUpdateFrame 4000];
      [ODisplay];
      [OUpdateAndDisplay 4000];
@@ -205,10 +184,6 @@ Definition spec_2in13b_v4 : pspec :=
      [OWaitIdle];
      [OSleep; OWakeUp];
      [OWakeUp];
-     [OUpdatePartial 16 8 4 64 2];
-     [OUpdatePartial 1 0 0 8 1];
-     [OUpdatePartial 1 112 249 8 1];
-     [OUpdatePartial 3 16 247 8 3];
      [OUpdateColor 4000 4000];
      [OUpdateAchromatic 4000; OUpdateChromatic 4000]].
 
@@ -216,7 +191,7 @@ Definition spec_2in13bc : pspec :=
   mkPS P2in13bc
     (mkCP Uc 104 212 13 false 0 0 [(16, P1); (19, P2)] [18] true true [2; 4; 18] true 3 9
       [0; 1; 2; 3; 4; 6; 7; 16; 17; 18; 19; 32; 33; 34; 35; 36; 37; 48; 64; 65; 80; 96; 97; 101; 113; 130; 144; 145; 146; 224; 227; 229]
-      [(97, [3]); (144, [9]); (7, [1])] None)
+      [(97, [3]); (144, [9]); (7, [1])] None false)
     2756 [(16, 13); (19, 13)] [0; 1; 2]
     [mkEntry (OUpdateFrame 2756) [mkTarget 0 16 BId 0 2756] 0;
      mkEntry (OUpdateAndDisplay 2756) [mkTarget 0 16 BId 0 2756] 1;
@@ -246,7 +221,7 @@ Definition spec_2in66b : pspec :=
   mkPS P2in66b
     (mkCP Ssd 152 296 19 false 21 295 [(36, P1); (38, P2)] [32] false false [18; 32; 70; 71] false 4 9
       [0; 1; 2; 3; 4; 8; 9; 10; 12; 15; 16; 17; 18; 20; 21; 24; 26; 27; 28; 32; 33; 34; 36; 38; 39; 40; 41; 42; 43; 44; 45; 46; 47; 48; 49; 50; 52; 53; 54; 55; 56; 57; 58; 59; 60; 63; 65; 68; 69; 70; 71; 78; 79; 116; 126; 127; 128; 255]
-      [(1, [3]); (16, [1]); (17, [1]); (33, [1; 2]); (34, [1]); (68, [2]); (69, [4]); (78, [1]); (79, [2])] None)
+      [(1, [3]); (16, [1]); (17, [1]); (33, [1; 2]); (34, [1]); (68, [2]); (69, [4]); (78, [1]); (79, [2])] None false)
     5624 [(36, 19); (38, 19)] [0; 1; 2]
     [mkEntry (OUpdateFrame 5624) [mkTarget 0 36 BId 0 5624] 0;
      mkEntry (OUpdateAndDisplay 5624) [mkTarget 0 36 BId 0 5624] 1;
@@ -277,7 +252,7 @@ Definition spec_2in7 : pspec :=
   mkPS P2in7
     (mkCP Uc 176 264 22 false 0 0 [(16, P1); (19, P2); (20, P1); (21, P2)] [18] true true [2; 4; 18] true 4 9
       [0; 1; 2; 3; 4; 5; 6; 7; 16; 17; 18; 19; 20; 21; 22; 32; 33; 34; 35; 36; 37; 48; 64; 65; 66; 67; 80; 81; 96; 97; 98; 101; 113; 128; 129; 130; 144; 145; 146; 160; 161; 162; 165; 224; 227; 229; 248]
-      [(97, [4]); (144, [9]); (7, [1])] None)
+      [(97, [4]); (144, [9]); (7, [1])] None false)
     5808 [(16, 22); (19, 22); (20, 22); (21, 22)] [0; 1]
     [mkEntry (OUpdateFrame 5808) [mkTarget 0 19 BId 0 5808] 0;
      mkEntry (OUpdateAndDisplay 5808) [mkTarget 0 19 BId 0 5808] 1]
@@ -302,7 +277,7 @@ Definition spec_2in7_v2 : pspec :=
   mkPS P2in7_v2
     (mkCP Ssd 176 264 22 false 21 295 [(36, P1); (38, P2)] [32] false false [18; 32; 70; 71] false 4 9
       [1; 3; 4; 12; 15; 16; 17; 18; 24; 26; 27; 32; 33; 34; 36; 38; 44; 50; 55; 58; 59; 60; 63; 68; 69; 70; 71; 78; 79; 127; 255]
-      [(1, [3]); (16, [1]); (17, [1]); (33, [1; 2]); (34, [1]); (68, [2]); (69, [4]); (78, [1]); (79, [2])] None)
+      [(1, [3]); (16, [1]); (17, [1]); (33, [1; 2]); (34, [1]); (68, [2]); (69, [4]); (78, [1]); (79, [2])] None false)
     5808 [(36, 22); (38, 22)] [0; 1]
     [mkEntry (OUpdateFrame 5808) [mkTarget 0 36 BId 0 5808] 0;
      mkEntry (OUpdateAndDisplay 5808) [mkTarget 0 36 BId 0 5808] 1]
@@ -327,7 +302,7 @@ Definition spec_2in7b : pspec :=
   mkPS P2in7b
     (mkCP Uc 176 264 22 false 0 0 [(16, P1); (19, P2); (20, P1); (21, P2)] [18] true true [2; 4; 18] true 4 9
       [0; 1; 2; 3; 4; 5; 6; 7; 16; 17; 18; 19; 20; 21; 22; 32; 33; 34; 35; 36; 37; 48; 64; 65; 66; 67; 80; 81; 96; 97; 98; 101; 113; 128; 129; 130; 144; 145; 146; 160; 161; 162; 165; 224; 227; 229; 248]
-      [(97, [4]); (144, [9]); (7, [1])] None)
+      [(97, [4]); (144, [9]); (7, [1])] None false)
     5808 [(16, 22); (19, 22); (20, 22); (21, 22)] [0; 1]
     [mkEntry (OUpdateFrame 5808) [mkTarget 0 16 BNot 0 5808] 0;
      mkEntry (OUpdateAndDisplay 5808) [mkTarget 0 16 BNot 0 5808] 1;
@@ -366,7 +341,7 @@ Definition spec_2in9 : pspec :=
   mkPS P2in9
     (mkCP Ssd 128 296 16 false 29 319 [(36, P1); (38, P2)] [32] false false [18; 32; 70; 71] false 4 9
       [1; 3; 4; 12; 15; 16; 17; 18; 24; 26; 27; 32; 33; 34; 36; 38; 44; 50; 55; 58; 59; 60; 63; 68; 69; 70; 71; 78; 79; 127; 255]
-      [(1, [3]); (16, [1]); (17, [1]); (33, [1; 2]); (34, [1]); (68, [2]); (69, [4]); (78, [1]); (79, [2])] None)
+      [(1, [3]); (16, [1]); (17, [1]); (33, [1; 2]); (34, [1]); (68, [2]); (69, [4]); (78, [1]); (79, [2])] None false)
     4736 [(36, 16); (38, 16)] [0; 1]
     [mkEntry (OUpdateFrame 4736) [mkTarget 0 36 BId 0 4736] 0;
      mkEntry (OUpdateAndDisplay 4736) [mkTarget 0 36 BId 0 4736] 1]
@@ -391,7 +366,7 @@ Definition spec_2in9_v2 : pspec :=
   mkPS P2in9_v2
     (mkCP Ssd 128 296 16 false 21 295 [(36, P1); (38, P2)] [32] false false [18; 32; 70; 71] false 4 9
       [1; 3; 4; 12; 15; 16; 17; 18; 24; 26; 27; 32; 33; 34; 36; 38; 44; 50; 55; 58; 59; 60; 63; 68; 69; 70; 71; 78; 79; 127; 255]
-      [(1, [3]); (16, [1]); (17, [1]); (33, [1; 2]); (34, [1]); (68, [2]); (69, [4]); (78, [1]); (79, [2])] None)
+      [(1, [3]); (16, [1]); (17, [1]); (33, [1; 2]); (34, [1]); (68, [2]); (69, [4]); (78, [1]); (79, [2])] None false)
     4736 [(36, 16); (38, 16)] [0; 1]
     [mkEntry (OUpdateFrame 4736) [mkTarget 0 36 BId 0 4736] 0;
      mkEntry (OUpdateAndDisplay 4736) [mkTarget 0 36 BId 0 4736] 1;
@@ -411,26 +386,16 @@ Definition spec_2in9_v2 : pspec :=
      [OSleep; OWakeUp];
      [OWakeUp];
      [OUpdatePartial 16 8 4 64 2];
-     [OUpdatePartial 1 0 0 8 1];
      [OUpdatePartial 1 120 295 8 1];
-     [OUpdatePartial 3 16 293 8 3];
      [OUpdateOld 4736; OUpdateNew 4736];
      [ODisplayNew];
-     [OUpdateAndDisplayNew 4736];
-     [OUpdatePartialOld 16 8 4 64 2; OUpdatePartialNew 16 8 4 64 2];
-     [OClearPartial 8 4 64 2];
-     [OUpdatePartialOld 1 0 0 8 1; OUpdatePartialNew 1 0 0 8 1];
-     [OClearPartial 0 0 8 1];
-     [OUpdatePartialOld 1 120 295 8 1; OUpdatePartialNew 1 120 295 8 1];
-     [OClearPartial 120 295 8 1];
-     [OUpdatePartialOld 3 16 293 8 3; OUpdatePartialNew 3 16 293 8 3];
-     [OClearPartial 16 293 8 3]].
+     [OUpdateAndDisplayNew 4736]].
 
 Definition spec_2in9b_v4 : pspec :=
   mkPS P2in9b_v4
     (mkCP Ssd 128 296 16 false 21 295 [(36, P1); (38, P2)] [32] false false [18; 32; 70; 71] false 4 9
       [1; 3; 4; 12; 15; 16; 17; 18; 24; 26; 27; 32; 33; 34; 36; 38; 44; 50; 55; 58; 59; 60; 63; 68; 69; 70; 71; 78; 79; 127; 255]
-      [(1, [3]); (16, [1]); (17, [1]); (33, [1; 2]); (34, [1]); (68, [2]); (69, [4]); (78, [1]); (79, [2])] None)
+      [(1, [3]); (16, [1]); (17, [1]); (33, [1; 2]); (34, [1]); (68, [2]); (69, [4]); (78, [1]); (79, [2])] None false)
     4736 [(36, 16); (38, 16)] [0; 1; 2]
     [mkEntry (OUpdateFrame 4736) [mkTarget 0 36 BId 0 4736] 0;
      mkEntry (OUpdateAndDisplay 4736) [mkTarget 0 36 BId 0 4736] 1;
@@ -451,9 +416,7 @@ Definition spec_2in9b_v4 : pspec :=
      [OSleep; OWakeUp];
      [OWakeUp];
      [OUpdatePartial 16 8 4 64 2];
-     [OUpdatePartial 1 0 0 8 1];
      [OUpdatePartial 1 120 295 8 1];
-     [OUpdatePartial 3 16 293 8 3];
      [OUpdateColor 4736 4736];
      [OUpdateAchromatic 4736; OUpdateChromatic 4736];
      [OUpdateAndDisplayBase 4736 (Some 4736)];
@@ -464,7 +427,7 @@ Definition spec_2in9bc : pspec :=
   mkPS P2in9bc
     (mkCP Uc 128 296 16 false 0 0 [(16, P1); (19, P2)] [18] true true [2; 4; 18] true 3 9
       [0; 1; 2; 3; 4; 6; 7; 16; 17; 18; 19; 32; 33; 34; 35; 36; 37; 48; 64; 65; 80; 96; 97; 101; 113; 130; 144; 145; 146; 224; 227; 229]
-      [(97, [3]); (144, [9]); (7, [1])] None)
+      [(97, [3]); (144, [9]); (7, [1])] None false)
     4736 [(16, 16); (19, 16)] [0; 1]
     [mkEntry (OUpdateFrame 4736) [mkTarget 0 16 BId 0 4736] 0;
      mkEntry (OUpdateAndDisplay 4736) [mkTarget 0 16 BId 0 4736] 1;
@@ -491,9 +454,9 @@ Definition spec_2in9bc : pspec :=
 
 Definition spec_2in9d : pspec :=
   mkPS P2in9d
-    (mkCP Uc 128 296 16 false 0 0 [(16, P1); (19, P2)] [18] true true [2; 4; 18] true 3 7
+    (mkCP Uc 128 296 16 false 0 0 [(16, P1); (19, P2)] [18] true true [2; 4; 18] false 3 7
       [0; 1; 2; 3; 4; 5; 6; 7; 16; 17; 18; 19; 32; 33; 34; 35; 36; 37; 48; 64; 65; 66; 67; 80; 81; 96; 97; 101; 112; 113; 128; 129; 130; 144; 145; 146; 160; 161; 162; 165; 224; 227; 229]
-      [(97, [3]); (144, [7]); (7, [1])] None)
+      [(97, [3]); (144, [7]); (7, [1])] None false)
     4736 [(16, 16); (19, 16)] [0; 1]
     [mkEntry (OUpdateFrame 4736) [mkTarget 0 19 BId 0 4736] 0;
      mkEntry (OUpdateAndDisplay 4736) [mkTarget 0 19 BId 0 4736] 1]
@@ -510,15 +473,13 @@ Definition spec_2in9d : pspec :=
      [OSleep; OWakeUp];
      [OWakeUp];
      [OUpdatePartial 16 8 4 64 2];
-     [OUpdatePartial 1 0 0 8 1];
-     [OUpdatePartial 1 120 295 8 1];
-     [OUpdatePartial 3 16 293 8 3]].
+     [OUpdatePartial 1 120 295 8 1]].
 
 Definition spec_3in7 : pspec :=
   mkPS P3in7
     (mkCP Ssd 280 480 35 true 59 479 [(36, P1); (38, P2)] [32] true false [18; 32; 70; 71] false 4 9
       [1; 2; 3; 4; 7; 12; 15; 16; 17; 18; 24; 26; 27; 32; 33; 34; 36; 38; 44; 50; 55; 58; 59; 60; 63; 68; 69; 70; 71; 78; 79; 80; 127; 255]
-      [(1, [3]); (16, [1]); (17, [1]); (33, [1; 2]); (34, [1]); (68, [4]); (69, [4]); (78, [2]); (79, [2]); (7, [1])] None)
+      [(1, [3]); (16, [1]); (17, [1]); (33, [1; 2]); (34, [1]); (68, [4]); (69, [4]); (78, [2]); (79, [2]); (7, [1])] None false)
     16800 [(36, 35); (38, 35)] [0; 1]
     [mkEntry (OUpdateFrame 16800) [mkTarget 0 36 BId 0 16800] 0;
      mkEntry (OUpdateAndDisplay 16800) [mkTarget 0 36 BId 0 16800] 1]
@@ -533,17 +494,13 @@ Definition spec_3in7 : pspec :=
      [OClear];
      [OWaitIdle];
      [OSleep; OWakeUp];
-     [OWakeUp];
-     [OUpdatePartial 16 8 4 64 2];
-     [OUpdatePartial 1 0 0 8 1];
-     [OUpdatePartial 1 272 479 8 1];
-     [OUpdatePartial 3 16 477 8 3]].
+     [OWakeUp]].
 
 Definition spec_4in2 : pspec :=
   mkPS P4in2
     (mkCP Uc 400 300 50 false 0 0 [(16, P1); (19, P2)] [18] true true [2; 4; 18] true 4 9
       [0; 1; 2; 3; 4; 5; 6; 7; 16; 17; 18; 19; 32; 33; 34; 35; 36; 37; 48; 64; 65; 66; 67; 80; 81; 96; 97; 101; 112; 113; 128; 129; 130; 144; 145; 146; 160; 161; 162; 165; 224; 227; 229]
-      [(97, [4]); (144, [9]); (7, [1])] None)
+      [(97, [4]); (144, [9]); (7, [1])] None false)
     15000 [(16, 50); (19, 50)] [0; 1]
     [mkEntry (OUpdateFrame 15000) [mkTarget 0 19 BId 0 15000] 0;
      mkEntry (OUpdateAndDisplay 15000) [mkTarget 0 19 BId 0 15000] 1;
@@ -582,7 +539,7 @@ Definition spec_5in65f : pspec :=
   mkPS P5in65f
     (mkCP Uc 600 448 75 false 0 0 [(16, P1)] [18] true true [2; 4; 18] true 4 9
       [0; 1; 2; 3; 4; 6; 7; 16; 17; 18; 19; 32; 33; 34; 35; 36; 37; 38; 39; 40; 41; 48; 64; 65; 66; 67; 80; 81; 96; 97; 101; 112; 113; 128; 129; 130; 144; 145; 146; 165; 224; 227; 229]
-      [(97, [4]); (144, [9]); (7, [1])] None)
+      [(97, [4]); (144, [9]); (7, [1])] None true)
     134400 [(16, 300)] [0; 1; 2; 3; 4; 5; 6; 7]
     [mkEntry (OUpdateFrame 134400) [mkTarget 0 16 BId 0 134400] 0;
      mkEntry (OUpdateAndDisplay 134400) [mkTarget 0 16 BId 0 134400] 1]
@@ -594,51 +551,37 @@ Definition spec_5in65f : pspec :=
      [OSetBg 5];
      [OSetBg 6];
      [OSetBg 7];
-     [OSetLut None];
-     [OSetLut (Some 0)];
-     [OSetLut (Some 1)];
      [OUpdateFrame 134400];
      [ODisplay];
      [OUpdateAndDisplay 134400];
      [OClear];
      [OWaitIdle];
      [OSleep; OWakeUp];
-     [OWakeUp];
-     [OUpdatePartial 16 8 4 64 2];
-     [OUpdatePartial 1 0 0 8 1];
-     [OUpdatePartial 1 592 447 8 1];
-     [OUpdatePartial 3 16 445 8 3]].
+     [OWakeUp]].
 
 Definition spec_5in83_v2 : pspec :=
   mkPS P5in83_v2
     (mkCP Uc 648 480 81 false 0 0 [(16, P1); (19, P2)] [18] true true [2; 4; 18] true 4 9
       [0; 1; 2; 3; 4; 6; 7; 16; 17; 18; 19; 21; 32; 33; 34; 35; 36; 37; 48; 64; 65; 66; 67; 80; 81; 96; 97; 101; 112; 113; 128; 129; 130; 144; 145; 146; 165; 224; 227; 229]
-      [(97, [4]); (144, [9]); (7, [1])] None)
+      [(97, [4]); (144, [9]); (7, [1])] None false)
     38880 [(16, 81); (19, 81)] [0; 1]
     [mkEntry (OUpdateFrame 38880) [mkTarget 0 19 BId 0 38880] 0;
      mkEntry (OUpdateAndDisplay 38880) [mkTarget 0 19 BId 0 38880] 1]
     [[OSetBg 0];
      [OSetBg 1];
-     [OSetLut None];
-     [OSetLut (Some 0)];
-     [OSetLut (Some 1)];
      [OUpdateFrame 38880];
      [ODisplay];
      [OUpdateAndDisplay 38880];
      [OClear];
      [OWaitIdle];
      [OSleep; OWakeUp];
-     [OWakeUp];
-     [OUpdatePartial 16 8 4 64 2];
-     [OUpdatePartial 1 0 0 8 1];
-     [OUpdatePartial 1 640 479 8 1];
-     [OUpdatePartial 3 16 477 8 3]].
+     [OWakeUp]].
 
 Definition spec_5in83b_v2 : pspec :=
   mkPS P5in83b_v2
     (mkCP Uc 648 480 81 false 0 0 [(16, P1); (19, P2)] [18] true true [2; 4; 18] true 4 9
       [0; 1; 2; 3; 4; 6; 7; 16; 17; 18; 19; 21; 32; 33; 34; 35; 36; 37; 48; 64; 65; 66; 67; 80; 81; 96; 97; 101; 112; 113; 128; 129; 130; 144; 145; 146; 165; 224; 227; 229]
-      [(97, [4]); (144, [9]); (7, [1])] None)
+      [(97, [4]); (144, [9]); (7, [1])] None false)
     38880 [(16, 81); (19, 81)] [0; 1]
     [mkEntry (OUpdateFrame 38880) [mkTarget 0 16 BId 0 38880] 0;
      mkEntry (OUpdateAndDisplay 38880) [mkTarget 0 16 BId 0 38880] 1;
@@ -647,9 +590,6 @@ Definition spec_5in83b_v2 : pspec :=
      mkEntry (OUpdateChromatic 38880) [mkTarget 0 19 BId 0 38880] 0]
     [[OSetBg 0];
      [OSetBg 1];
-     [OSetLut None];
-     [OSetLut (Some 0)];
-     [OSetLut (Some 1)];
      [OUpdateFrame 38880];
      [ODisplay];
      [OUpdateAndDisplay 38880];
@@ -668,7 +608,7 @@ Definition spec_7in3f : pspec :=
   mkPS P7in3f
     (mkCP Uc 800 480 100 false 0 0 [(16, P1)] [18] true true [2; 4; 18] true 4 9
       [0; 1; 2; 3; 4; 5; 6; 7; 8; 16; 17; 18; 19; 32; 33; 34; 35; 36; 37; 48; 64; 65; 80; 96; 97; 101; 113; 130; 132; 134; 144; 145; 146; 170; 224; 227; 229; 230]
-      [(97, [4]); (144, [9]); (7, [1])] None)
+      [(97, [4]); (144, [9]); (7, [1])] None false)
     192000 [(16, 400)] [0; 1; 2; 3; 4; 5; 6; 7]
     [mkEntry (OUpdateFrame 192000) [mkTarget 0 16 BId 0 192000] 0;
      mkEntry (OUpdateAndDisplay 192000) [mkTarget 0 16 BId 0 192000] 1]
@@ -680,9 +620,6 @@ Definition spec_7in3f : pspec :=
      [OSetBg 5];
      [OSetBg 6];
      [OSetBg 7];
-     [OSetLut None];
-     [OSetLut (Some 0)];
-     [OSetLut (Some 1)];
      [OUpdateFrame 192000];
      [ODisplay];
      [OUpdateAndDisplay 192000];
@@ -690,92 +627,67 @@ Definition spec_7in3f : pspec :=
      [OWaitIdle];
      [OSleep; OWakeUp];
      [OWakeUp];
-     [OUpdatePartial 16 8 4 64 2];
-     [OUpdatePartial 1 0 0 8 1];
-     [OUpdatePartial 1 792 479 8 1];
-     [OUpdatePartial 3 16 477 8 3];
      [OShow7Block]].
 
 Definition spec_7in5 : pspec :=
   mkPS P7in5
     (mkCP Uc 640 384 80 false 0 0 [(16, P1)] [18] true true [2; 4; 18] true 4 9
       [0; 1; 2; 3; 4; 6; 7; 16; 17; 18; 19; 32; 33; 34; 35; 36; 37; 38; 39; 40; 41; 48; 64; 65; 66; 67; 80; 81; 96; 97; 101; 112; 113; 128; 129; 130; 144; 145; 146; 165; 224; 227; 229]
-      [(97, [4]); (144, [9]); (7, [1])] None)
+      [(97, [4]); (144, [9]); (7, [1])] None false)
     30720 [(16, 320)] [0; 1]
     [mkEntry (OUpdateFrame 30720) [mkTarget 0 16 BExp4 0 30720] 0;
      mkEntry (OUpdateAndDisplay 30720) [mkTarget 0 16 BExp4 0 30720] 1]
     [[OSetBg 0];
      [OSetBg 1];
-     [OSetLut None];
-     [OSetLut (Some 0)];
-     [OSetLut (Some 1)];
      [OUpdateFrame 30720];
      [ODisplay];
      [OUpdateAndDisplay 30720];
      [OClear];
      [OWaitIdle];
      [OSleep; OWakeUp];
-     [OWakeUp];
-     [OUpdatePartial 16 8 4 64 2];
-     [OUpdatePartial 1 0 0 8 1];
-     [OUpdatePartial 1 632 383 8 1];
-     [OUpdatePartial 3 16 381 8 3]].
+     [OWakeUp]].
 
 Definition spec_7in5_hd : pspec :=
   mkPS P7in5_hd
     (mkCP Ssd 880 528 110 true 119 679 [(36, P1); (38, P2)] [32] false false [18; 32; 70; 71] false 4 9
       [1; 3; 4; 12; 15; 16; 17; 18; 20; 21; 24; 26; 27; 28; 32; 33; 34; 36; 38; 39; 40; 41; 42; 43; 44; 45; 50; 52; 53; 54; 55; 56; 58; 59; 60; 63; 65; 68; 69; 70; 71; 78; 79; 127; 255]
-      [(1, [3]); (16, [1]); (17, [1]); (33, [1; 2]); (34, [1]); (68, [4]); (69, [4]); (78, [2]); (79, [2])] None)
+      [(1, [3]); (16, [1]); (17, [1]); (33, [1; 2]); (34, [1]); (68, [4]); (69, [4]); (78, [2]); (79, [2])] None false)
     58080 [(36, 110); (38, 110)] [0; 1]
     [mkEntry (OUpdateFrame 58080) [mkTarget 0 36 BId 0 58080] 0;
      mkEntry (OUpdateAndDisplay 58080) [mkTarget 0 36 BId 0 58080] 1]
     [[OSetBg 0];
      [OSetBg 1];
-     [OSetLut None];
-     [OSetLut (Some 0)];
-     [OSetLut (Some 1)];
      [OUpdateFrame 58080];
      [ODisplay];
      [OUpdateAndDisplay 58080];
      [OClear];
      [OWaitIdle];
      [OSleep; OWakeUp];
-     [OWakeUp];
-     [OUpdatePartial 16 8 4 64 2];
-     [OUpdatePartial 1 0 0 8 1];
-     [OUpdatePartial 1 872 527 8 1];
-     [OUpdatePartial 3 16 525 8 3]].
+     [OWakeUp]].
 
 Definition spec_7in5_v2 : pspec :=
   mkPS P7in5_v2
     (mkCP Uc 800 480 100 false 0 0 [(16, P1); (19, P2)] [18] true true [2; 4; 18] true 4 9
       [0; 1; 2; 3; 4; 6; 7; 16; 17; 18; 19; 21; 32; 33; 34; 35; 36; 37; 38; 39; 40; 41; 48; 64; 65; 66; 67; 80; 81; 96; 97; 101; 112; 113; 128; 129; 130; 144; 145; 146; 165; 224; 227; 229]
-      [(97, [4]); (144, [9]); (7, [1])] None)
+      [(97, [4]); (144, [9]); (7, [1])] None false)
     48000 [(16, 100); (19, 100)] [0; 1]
     [mkEntry (OUpdateFrame 48000) [mkTarget 0 19 BId 0 48000] 0;
      mkEntry (OUpdateAndDisplay 48000) [mkTarget 0 19 BId 0 48000] 1]
     [[OSetBg 0];
      [OSetBg 1];
-     [OSetLut None];
-     [OSetLut (Some 0)];
-     [OSetLut (Some 1)];
      [OUpdateFrame 48000];
      [ODisplay];
      [OUpdateAndDisplay 48000];
      [OClear];
      [OWaitIdle];
      [OSleep; OWakeUp];
-     [OWakeUp];
-     [OUpdatePartial 16 8 4 64 2];
-     [OUpdatePartial 1 0 0 8 1];
-     [OUpdatePartial 1 792 479 8 1];
-     [OUpdatePartial 3 16 477 8 3]].
+     [OWakeUp]].
 
 Definition spec_7in5b_v2 : pspec :=
   mkPS P7in5b_v2
     (mkCP Uc 800 480 100 false 0 0 [(16, P1); (19, P2)] [18] true true [2; 4; 18] true 4 9
       [0; 1; 2; 3; 4; 6; 7; 16; 17; 18; 19; 21; 32; 33; 34; 35; 36; 37; 38; 39; 40; 41; 42; 43; 48; 64; 65; 66; 67; 80; 81; 96; 97; 101; 112; 113; 128; 129; 130; 144; 145; 146; 162; 165; 224; 227; 229]
-      [(97, [4]); (144, [9]); (7, [1])] None)
+      [(97, [4]); (144, [9]); (7, [1])] None false)
     48000 [(16, 100); (19, 100)] [0; 1; 2]
     [mkEntry (OUpdateFrame 96000) [mkTarget 0 16 BId 0 48000; mkTarget 0 19 BId 48000 48000] 0;
      mkEntry (OUpdateAndDisplay 96000) [mkTarget 0 16 BId 0 48000; mkTarget 0 19 BId 48000 48000] 1;
@@ -785,9 +697,6 @@ Definition spec_7in5b_v2 : pspec :=
     [[OSetBg 0];
      [OSetBg 1];
      [OSetBg 2];
-     [OSetLut None];
-     [OSetLut (Some 0)];
-     [OSetLut (Some 1)];
      [OUpdateFrame 96000];
      [ODisplay];
      [OUpdateAndDisplay 96000];
@@ -795,10 +704,6 @@ Definition spec_7in5b_v2 : pspec :=
      [OWaitIdle];
      [OSleep; OWakeUp];
      [OWakeUp];
-     [OUpdatePartial 16 8 4 64 2];
-     [OUpdatePartial 1 0 0 8 1];
-     [OUpdatePartial 1 792 479 8 1];
-     [OUpdatePartial 3 16 477 8 3];
      [OUpdateColor 48000 48000];
      [OUpdateAchromatic 48000; OUpdateChromatic 48000];
      [OUpdatePartial2 16 8 4 64 2];
